@@ -2,20 +2,24 @@
    implementation (through /repo/codec/verif_hooks_c16.go and the public API) and
    report the ids of the cases that differ. *)
 From Coq Require Import List NArith ZArith Arith Bool.
-From Verif Require Import Base.Outcome Wire.Item C16.Spec C16.Model.
+From Verif Require Import Base.Outcome Wire.Item C16.Spec C16.Model C16.Scratch.
 Import ListNotations.
 
 Definition path := list (nat * nat).
+
+(* operations on the Encoder's scratch-list pool, driven through the hook: get(n); put(list a of capacity c) *)
+Inductive pop := PGet (n : nat) | PPut (a : N) (c : nat).
 
 Inductive case :=
 | CFields (id : N) (t : fty) (toarray omit : bool) (kt : N)
           (source sorted : list (str * bool * path)) (probes : list (str * Z))
 | CEmpty (id : N) (safe : bool) (t : fty) (v : mval) (e_nr e_r c_nr c_r : bool)
 | CEnc (id : N) (o : opts) (t : fty) (v : mval) (leaves : list (path * item)) (obs : item)
-| CDec (id : N) (o : opts) (t : fty) (v : mval) (stream : item) (results : list mval) (obs : option mval).
+| CDec (id : N) (o : opts) (t : fty) (v : mval) (stream : item) (results : list mval) (obs : option mval)
+| CPool (id : N) (ops : list pop) (obs : list (N * nat * list (N * nat))).
 
 Definition cid (c : case) : N :=
-  match c with CFields i _ _ _ _ _ _ _ | CEmpty i _ _ _ _ _ _ _ | CEnc i _ _ _ _ _ | CDec i _ _ _ _ _ _ => i end.
+  match c with CFields i _ _ _ _ _ _ _ | CEmpty i _ _ _ _ _ _ _ | CEnc i _ _ _ _ _ | CDec i _ _ _ _ _ _ | CPool i _ _ => i end.
 
 Definition path_eqb (a b : path) : bool :=
   (length a =? length b) && forallb (fun p => (fst (fst p) =? fst (snd p)) && (snd (fst p) =? snd (snd p))) (combine a b).
@@ -93,6 +97,17 @@ Definition res_bool_is (r : res bool) (b : bool) : bool :=
 Fixpoint lookup_leaf (p : path) (l : list (path * item)) : item :=
   match l with [] => IStr [] | (q, it) :: r => if path_eqb p q then it else lookup_leaf p r end.
 
+(* the pool model run over a sequence of operations, from an empty pool: per operation the
+   list handed out / handed back and the pool afterwards *)
+Fixpoint run_ops (ops : list pop) (p : pool) (nx : N) : list (N * nat * list (N * nat)) :=
+  match ops with
+  | [] => []
+  | PGet n :: r => let '(w, p', nx') := pool_get n p nx in (fst w, snd w, p') :: run_ops r p' nx'
+  | PPut a c :: r => let p' := pool_put (a, c) p in (a, c, p') :: run_ops r p' nx
+  end.
+
+Definition slist_eqb (a b : N * nat) : bool := N.eqb (fst a) (fst b) && Nat.eqb (snd a) (snd b).
+
 Definition check_case (c : case) : bool :=
   match c with
   | CFields _ t toarray omit kt source sorted probes =>
@@ -127,6 +142,8 @@ Definition check_case (c : case) : bool :=
     | Err _, None => true
     | _, _ => false
     end
+  | CPool _ ops obs =>
+    list_eqb (fun m o => slist_eqb (fst m) (fst o) && list_eqb slist_eqb (snd m) (snd o)) (run_ops ops [] 0%N) obs
   end.
 
 Definition mismatches (cs : list case) : list N :=
